@@ -200,6 +200,26 @@ func methodsOf(in *Input, t *Ty) []msig {
 	return nil
 }
 
+// underlying kind of a named type of the menu (what x.Underlying() is in createFieldSnippet)
+func ukindOf(in *Input, t *Ty) string {
+	switch {
+	case t.Pkg == "target" && t.Name == "LIface", t.Pkg == "origin" && t.Name == "Iface",
+		t.Pkg == "io" && t.Name == "Reader", t.Pkg == "fmt" && t.Name == "Stringer":
+		return "UIface"
+	case t.Pkg == "target" && t.Name == "LMap":
+		return "UMap"
+	case t.Pkg == "origin" && t.Name == "Kind", t.Pkg == "lib" && t.Name == "Code", t.Pkg == "time" && t.Name == "Duration":
+		return "UOther"
+	case t.Pkg == "origin":
+		for i := range in.Types {
+			if in.Types[i].Name == t.Name && in.Types[i].NonStruct != "" {
+				return "UOther" // never a field type in generated inputs; foreign, so the kind is not looked at
+			}
+		}
+	}
+	return "UStruct"
+}
+
 // ---------------------------------------------------------------------------------------------
 // Coq terms
 
@@ -224,7 +244,7 @@ func (t *Ty) coq(in *Input) string {
 	case "ifacelit":
 		return "(TIfaceLit " + core.Hex(ifaceLitText) + ")"
 	case "named":
-		return fmt.Sprintf("(TNamed %s %s %s)", core.Hex(pkgPathOf(in, t.Pkg)), core.Hex(t.Name), coqMsigs(methodsOf(in, t)))
+		return fmt.Sprintf("(TNamed %s %s %s %s)", core.Hex(pkgPathOf(in, t.Pkg)), core.Hex(t.Name), ukindOf(in, t), coqMsigs(methodsOf(in, t)))
 	case "ptr":
 		return "(TPtr " + t.Elem.coq(in) + ")"
 	case "slice":
